@@ -726,6 +726,21 @@ def check(pid, tier, seed):
     stats["discharged"] = len(theorems) if (ok_build and ok_a) else 0
     if ok_build and not ok_a:
         broken.append({"tie": "audit", "detail": "\n".join(problems)})
+    if ok_build and tier == "thorough" and plan["proofs"]:
+        # independent re-check: leanchecker replays the compiled declarations of each proof module through the kernel
+        from concurrent.futures import ThreadPoolExecutor
+        def lc(mod):
+            try:
+                rc, out = run(["lake", "env", "leanchecker", mod], cwd=LEAN, timeout=3600)
+            except subprocess.TimeoutExpired:
+                rc, out = 124, "timeout"
+            return mod, rc, out
+        with ThreadPoolExecutor(max_workers=4) as ex:
+            res = list(ex.map(lc, plan["proofs"]))
+        stats["dist"]["leanchecker-modules-ok"] = sum(1 for _, rc, _ in res if rc == 0)
+        bad = [(m, rc, out[-500:]) for m, rc, out in res if rc != 0]
+        if bad:
+            broken.append({"tie": "leanchecker", "detail": str(bad)[:2000]})
 
     okc, cout, binary = cargo_build(plan.get("fset", "default"), toolchain=plan.get("toolchain"))
     if not okc:
